@@ -422,6 +422,7 @@ Section Tune.
              | Some d => Ok (TOne (set_arg_graph g1 d))
              | None => Raise IndexError
              end
+    else if Nat.ltb 1 k then Ok (TMany [g])           (* tuned_graphs = [graph] if is_multi_objective else graph *)
     else Ok (TOne g).
 
   Definition run_tune (p : proposer) (init : metric) (g : graph) : res tuned :=
@@ -491,7 +492,7 @@ Section Tune.
     | Ok t =>
         if multi_mode init then
           match t with
-          | TOne _ => Raise TypeError                 (* tuning not possible: `for tuned_graph in graph` *)
+          | TOne _ => Raise TypeError                 (* unreachable: multi mode always builds a list *)
           | TMany tgs =>
               match multi_final_check init_graph init tgs with
               | Raise e => Raise e
